@@ -622,4 +622,244 @@ theorem unmatchedRow_read {lhs rhs : MechTable} (hl : WF lhs) (hr : WF rhs) (hc 
         (fun k hk => by simpa [colsOf] using rhsOnly_lt _ _ k hk)]
     rfl
 
+/-! ### the flags `rhs_matched` -/
+
+/-- `for rhs_row in matched_rhs { rhs_matched[rhs_row - 1] = true; }` -/
+def setAll (m : List Bool) (js : List Nat) : List Bool := js.foldl (fun m r => m.set (r - 1) true) m
+
+theorem setAll_length : ∀ (js : List Nat) (m : List Bool), (setAll m js).length = m.length := by
+  intro js
+  induction js with
+  | nil => intro m; rfl
+  | cons r js ih => intro m; simp only [setAll, List.foldl_cons] at ih ⊢; rw [ih]; simp
+
+theorem vecGet_setAll : ∀ (js : List Nat) (m : List Bool) (k : Nat),
+    vecGet (setAll m js) k = (vecGet m k || (decide (k < m.length) && js.any (fun r => r - 1 == k))) := by
+  intro js
+  induction js with
+  | nil => intro m k; simp [setAll]
+  | cons r js ih =>
+    intro m k
+    have := ih (m.set (r - 1) true) k
+    simp only [setAll, List.foldl_cons] at this ⊢
+    rw [this]
+    simp only [vecGet, List.getElem?_set, List.length_set, List.any_cons]
+    by_cases hk : k < m.length <;> by_cases hr : r - 1 = k
+    · subst hr; simp [hk]
+    · have : (r - 1 == k) = false := by simpa using hr
+      simp [hk, hr, this]
+    · subst hr; simp [hk]
+    · simp [hk, hr]
+
+theorem vecGet_foldl_setAll (matched : Nat → List Nat) : ∀ (is : List Nat) (m : List Bool) (k : Nat),
+    vecGet (is.foldl (fun m i => setAll m (matched i)) m) k =
+      (vecGet m k || (decide (k < m.length) && is.any (fun i => (matched i).any (fun r => r - 1 == k)))) := by
+  intro is
+  induction is with
+  | nil => intro m k; simp
+  | cons i is ih =>
+    intro m k
+    rw [List.foldl_cons, ih, vecGet_setAll, setAll_length]
+    simp only [List.any_cons]
+    cases vecGet m k <;> cases decide (k < m.length) <;> simp
+
+theorem foldl_pair_split {σ τ α : Type} (f : List σ × τ → α → List σ × τ) (g : α → List σ) (k : τ → α → τ)
+    (h1 : ∀ s x, (f s x).1 = s.1 ++ g x) (h2 : ∀ s x, (f s x).2 = k s.2 x) :
+    ∀ (l : List α) (s : List σ × τ), l.foldl f s = (s.1 ++ l.flatMap g, l.foldl k s.2) := by
+  intro l
+  induction l with
+  | nil => intro s; simp
+  | cons x l ih =>
+    intro s
+    rw [List.foldl_cons, ih, h1, h2]
+    simp [List.append_assoc]
+
+/-! ### the kernel in closed form -/
+
+theorem foldl_filterMap {α β : Type} (f : List β → α → List β) (g : α → Option β)
+    (h : ∀ acc x, f acc x = match g x with | some y => acc ++ [y] | none => acc) :
+    ∀ (l : List α) (init : List β), l.foldl f init = init ++ l.filterMap g := by
+  intro l
+  induction l with
+  | nil => intro init; simp
+  | cons x l ih =>
+    intro init
+    rw [List.foldl_cons, ih, h, List.filterMap_cons]
+    cases g x <;> simp
+
+theorem foldl_map {α β : Type} (f : List β → α → List β) (g : α → β)
+    (h : ∀ acc x, f acc x = acc ++ [g x]) : ∀ (l : List α) (init : List β), l.foldl f init = init ++ l.map g := by
+  intro l
+  induction l with
+  | nil => intro init; simp
+  | cons x l ih => intro init; rw [List.foldl_cons, ih, h]; simp
+
+theorem foldl_filter {α : Type} (f : List α → α → List α) (p : α → Bool)
+    (h : ∀ acc x, f acc x = if p x then acc ++ [x] else acc) : ∀ (l : List α) (init : List α),
+    l.foldl f init = init ++ l.filter p := by
+  intro l
+  induction l with
+  | nil => intro init; simp
+  | cons x l ih =>
+    intro init
+    rw [List.foldl_cons, ih, h, List.filter_cons]
+    cases p x <;> simp
+
+def isRF : Gen.JoinKernel.JoinMode → Bool | .RightOuter | .FullOuter => true | _ => false
+def isLF : Gen.JoinKernel.JoinMode → Bool | .LeftOuter | .FullOuter => true | _ => false
+def isSA : Gen.JoinKernel.JoinMode → Bool | .LeftSemi | .LeftAnti => true | _ => false
+
+def crhs (lhs rhs : MechTable) : HashSet Nat := (ccIds lhs rhs).map Prod.snd
+def clhs (lhs rhs : MechTable) : HashSet Nat := (ccIds lhs rhs).map Prod.fst
+
+def outputCols (lhs rhs : MechTable) (mode : Gen.JoinKernel.JoinMode) : List (Nat × ValueKind × String) :=
+  if isSA mode then lhs.data.map (fun e => (e.1, e.2.1, nameOf lhs e.1))
+  else lhs.data.map (fun e => (e.1, (if (!HashSet.contains (clhs lhs rhs) e.1 && isRF mode) then make_optional_kind e.2.1 else e.2.1),
+      nameOf lhs e.1)) ++
+    (roData lhs rhs).map (fun e => (e.1, (if isLF mode then make_optional_kind e.2.1 else e.2.1), nameOf rhs e.1))
+
+def matchedRhs (lhs rhs : MechTable) (i : Nat) : List Nat :=
+  (rangeIncl 1 rhs.rows).filter (fun r => rows_match lhs i rhs r (ccIds lhs rhs))
+
+def stepOut (lhs rhs : MechTable) (mode : Gen.JoinKernel.JoinMode) (i : Nat) : List (HashMap Nat Value) :=
+  match mode with
+  | .Inner | .RightOuter => (matchedRhs lhs rhs i).map (fun r => merge_rows lhs i rhs r (crhs lhs rhs) false)
+  | .LeftOuter | .FullOuter =>
+    if (matchedRhs lhs rhs i).isEmpty then [merge_rows lhs i rhs 0 (crhs lhs rhs) true]
+    else (matchedRhs lhs rhs i).map (fun r => merge_rows lhs i rhs r (crhs lhs rhs) false)
+  | .LeftSemi => if !(matchedRhs lhs rhs i).isEmpty then [lhs_only_row lhs i] else []
+  | .LeftAnti => if (matchedRhs lhs rhs i).isEmpty then [lhs_only_row lhs i] else []
+
+def stepMark (lhs rhs : MechTable) (mode : Gen.JoinKernel.JoinMode) (m : List Bool) (i : Nat) : List Bool :=
+  match mode with
+  | .LeftSemi | .LeftAnti => m
+  | _ => setAll m (matchedRhs lhs rhs i)
+
+def marks (lhs rhs : MechTable) (mode : Gen.JoinKernel.JoinMode) : List Bool :=
+  (rangeIncl 1 lhs.rows).foldl (stepMark lhs rhs mode) (List.replicate rhs.rows false)
+
+def outRows (lhs rhs : MechTable) (mode : Gen.JoinKernel.JoinMode) : List (HashMap Nat Value) :=
+  (rangeIncl 1 lhs.rows).flatMap (stepOut lhs rhs mode) ++
+    (if isRF mode then
+      ((rangeIncl 1 rhs.rows).filter (fun r => !vecGet (marks lhs rhs mode) (r - 1))).map (unmatchedRow lhs rhs)
+     else [])
+
+/-- the last loop of `build_joined_table`: the result rows transposed into columns -/
+def finish (output_cols : List (Nat × ValueKind × String)) (out_rows : List (HashMap Nat Value)) : MechTable :=
+  let dc := output_cols.foldl (fun (s : IndexMap Nat (ValueKind × Matrix Value) × HashMap Nat String) c =>
+      (IndexMap.insert s.1 c.1 (c.2.1, out_rows.map (fun row => Option.getD (AList.get row c.1) Value.Empty)),
+       HashMap.insert s.2 c.1 c.2.2)) (IndexMap.new, HashMap.new)
+  { rows := out_rows.length, cols := output_cols.length, data := dc.1, col_names := dc.2 }
+
+theorem inner_pair_fold (lhs rhs : MechTable) (i : Nat) (c : HashSet Nat) (js : List Nat) (o : List (HashMap Nat Value)) (m : List Bool) :
+    List.foldl (fun (x : List (HashMap Nat Value) × List Bool) rhs_row =>
+      match x with
+      | (out_rows, rhs_matched) =>
+        (out_rows ++ [merge_rows lhs i rhs rhs_row c false], rhs_matched.set (rhs_row - 1) true)) (o, m) js =
+      (o ++ js.map (fun r => merge_rows lhs i rhs r c false), setAll m js) := by
+  induction js generalizing o m with
+  | nil => simp [setAll]
+  | cons r js ih => simp only [List.foldl_cons, ih, setAll]; simp
+
+theorem unmatchedRow_eq (lhs rhs : MechTable) (r : Nat) (F1 F2)
+    (h1 : ∀ row (x : Nat × ValueKind × Matrix Value), F1 row x = if HashSet.contains (crhs lhs rhs) x.1 = true then row
+      else HashMap.insert row x.1 (cellById rhs r x.1))
+    (h2 : ∀ row (x : Nat × ValueKind × Matrix Value), F2 row x = HashMap.insert row x.1 (unmatchedLhsVal lhs rhs r x.1)) :
+    List.foldl F1 (List.foldl F2 HashMap.new lhs.data) rhs.data = unmatchedRow lhs rhs r := by
+  rw [foldl_skip (fun (e : Nat × ValueKind × Matrix Value) => HashSet.contains (crhs lhs rhs) e.1)
+    (fun row e => HashMap.insert row e.1 (cellById rhs r e.1)) F1 h1]
+  have : F2 = fun row x => HashMap.insert row x.1 (unmatchedLhsVal lhs rhs r x.1) := by funext row x; exact h2 row x
+  rw [this]; rfl
+
+theorem values_fold (id : Nat) (out : List (HashMap Nat Value)) :
+    List.foldl (fun values row => values ++ [(AList.get row id).getD Value.Empty]) [] out =
+      out.map (fun row => (AList.get row id).getD Value.Empty) := by
+  rw [foldl_map _ (fun row => (AList.get row id).getD Value.Empty) (fun _ _ => rfl)]; rfl
+
+theorem build_eq (lhs rhs : MechTable) (mode : Gen.JoinKernel.JoinMode) :
+    build_joined_table lhs rhs mode = finish (outputCols lhs rhs mode) (outRows lhs rhs mode) := by
+  unfold build_joined_table
+  extract_lets rhs_name_to_id common_cols0 common_cols common_rhs common_lhs oc0 oc1 oc2 oc3 oc out0 m0 mr0 row0 data0 cn0 v0
+  have hn : rhs_name_to_id = nameToId rhs := rfl
+  have hcc : common_cols = ccIds lhs rhs := by
+    show List.foldl _ _ _ = _
+    rw [foldl_filterMap _ (fun e => (AList.get (nameToId rhs) e.2).map (fun r => (e.1, r)))]
+    · rfl
+    · rintro acc ⟨a, b⟩
+      simp only [hn]
+      cases AList.get (nameToId rhs) b <;> rfl
+  have hcr : common_rhs = crhs lhs rhs := by
+    simp only [common_rhs, hcc, crhs, HashSet.collect, iter, list_fmap]
+  have hcl : common_lhs = clhs lhs rhs := by
+    simp only [common_lhs, hcc, clhs, HashSet.collect, iter, list_fmap]
+  have hoc : oc = outputCols lhs rhs mode := by
+    have h1 : oc1 = lhs.data.map (fun e => (e.1, (if (!HashSet.contains (clhs lhs rhs) e.1 && isRF mode) then make_optional_kind e.2.1 else e.2.1),
+        nameOf lhs e.1)) := by
+      show List.foldl _ _ _ = _
+      rw [foldl_map _ (fun e => (e.1, (if (!HashSet.contains (clhs lhs rhs) e.1 && isRF mode) then make_optional_kind e.2.1 else e.2.1),
+        nameOf lhs e.1))]
+      · rfl
+      · rintro acc ⟨a, b, c⟩
+        simp only [hcl]
+        cases mode <;> rfl
+    have h2 : oc2 = oc1 ++ (roData lhs rhs).map (fun e => (e.1, (if isLF mode then make_optional_kind e.2.1 else e.2.1), nameOf rhs e.1)) := by
+      show List.foldl _ _ _ = _
+      rw [foldl_skip (fun (e : Nat × ValueKind × Matrix Value) => HashSet.contains (crhs lhs rhs) e.1)
+        (fun (acc : List (Nat × ValueKind × String)) (e : Nat × ValueKind × Matrix Value) =>
+          acc ++ [(e.1, (if isLF mode then make_optional_kind e.2.1 else e.2.1), nameOf rhs e.1)])]
+      · rw [foldl_map _ (fun (e : Nat × ValueKind × Matrix Value) => (e.1, (if isLF mode then make_optional_kind e.2.1 else e.2.1), nameOf rhs e.1)) (fun _ _ => rfl)]
+        rfl
+      · rintro acc ⟨a, b, c⟩
+        simp only [hcr]
+        cases mode <;> rfl
+    have h3 : oc3 = lhs.data.map (fun e => (e.1, e.2.1, nameOf lhs e.1)) := by
+      simp only [oc3, iter, list_fmap]
+      apply List.map_congr_left
+      rintro ⟨a, b, c⟩ _; rfl
+    simp only [oc, outputCols, h3, h2, h1]
+    cases mode <;> rfl
+  have hm : ∀ i, List.foldl (fun matched_rhs rhs_row =>
+        if rows_match lhs i rhs rhs_row common_cols = true then matched_rhs ++ [rhs_row] else matched_rhs)
+      mr0 (rangeIncl 1 rhs.rows) = matchedRhs lhs rhs i := by
+    intro i
+    rw [foldl_filter _ (fun r => rows_match lhs i rhs r common_cols) (fun _ _ => rfl)]
+    simp [matchedRhs, hcc, mr0]
+  clear hn
+  clear_value oc oc3 oc2 oc1 common_lhs common_rhs common_cols rhs_name_to_id
+  subst hcc hcr hcl hoc
+  clear oc3 oc2 oc1 rhs_name_to_id oc0 common_cols0
+  rw [foldl_pair_split _ (stepOut lhs rhs mode) (stepMark lhs rhs mode)]
+  · simp -zeta only [out0, m0, List.nil_append]
+    extract_lets out_u out_f
+    have hu : isRF mode = true → out_u = List.flatMap (stepOut lhs rhs mode) (rangeIncl 1 lhs.rows) ++
+        ((rangeIncl 1 rhs.rows).filter (fun r => !vecGet (marks lhs rhs mode) (r - 1))).map (unmatchedRow lhs rhs) := by
+      intro hrf
+      show List.foldl _ _ _ = _
+      rw [foldl_skip (fun r => vecGet (marks lhs rhs mode) (r - 1)) (fun acc r => acc ++ [unmatchedRow lhs rhs r]),
+        foldl_map _ (unmatchedRow lhs rhs) (fun _ _ => rfl)]
+      intro acc r
+      simp only [row0]
+      rw [unmatchedRow_eq lhs rhs r]
+      · cases mode <;> first | rfl | cases hrf
+      · intro row x; rfl
+      · intro row x
+        simp only [iter, unmatchedLhsVal]
+        cases List.find? (fun x_1 => x_1.fst == x.fst) (ccIds lhs rhs) <;> rfl
+    have hf : out_f = outRows lhs rhs mode := by
+      simp only [out_f, outRows]
+      cases hrf : isRF mode
+      · cases mode <;> simp [isRF] at hrf ⊢
+      · rw [hu hrf]
+        cases mode <;> simp [isRF] at hrf ⊢
+    clear_value out_f
+    subst hf
+    simp only [values_fold, v0, data0, cn0]
+    rfl
+  · rintro ⟨o, m⟩ i
+    simp only [hm]
+    cases mode <;> simp only [inner_pair_fold, stepOut] <;> (try split) <;> simp_all [List.isEmpty_iff]
+  · rintro ⟨o, m⟩ i
+    simp only [hm]
+    cases mode <;> simp only [inner_pair_fold, stepMark] <;> (try split) <;> simp_all [setAll, List.isEmpty_iff]
+
 end MechVerif.JoinIR
